@@ -106,6 +106,7 @@ structure St where
   inconclLinkFailed : Nat := 0
   inconclSetup : Nat := 0
   dirty : Nat := 0
+  stalled : Nat := 0
   settledPairs : Nat := 0
   failedPairs : Nat := 0
   kinds : List (String × Nat) := []
@@ -436,7 +437,17 @@ def step (s : St) (line : String) : IO St := do
     match q with
     | "yes" | "yes_noresult" =>
       quiescenceChecks { s with quiescent := s.quiescent + 1 } false
-    | "dirty" => quiescenceChecks { s with dirty := s.dirty + 1 } true
+    | "dirty" =>
+      -- The model's `Quiescent` needs stable life cycles (no update in flight). A network
+      -- that is idle while some end still owes a commit_sig / revoke_and_ack is a stalled
+      -- commitment dance (liveness of the channel state machine, properties C02/C03), not a
+      -- quiescent state: inconclusive for C08.
+      let inFlight := s.qEnds.any (fun e => e.pending != 0) ||
+        s.pairs.any (fun pr => !pr.dead && !(pr.obs.up.stable && pr.obs.down.stable))
+      if inFlight then
+        IO.println s!"SAMPLE case={s.caseId} idle but a commitment is owed (not quiescent, inconclusive): {s.qEnds.foldl (fun acc e => acc ++ s!" {e.name}:pending={e.pending}") ""}"
+        return { s with stalled := s.stalled + 1 }
+      else quiescenceChecks { s with dirty := s.dirty + 1 } true
     | "linkfailed" => return { s with inconclLinkFailed := s.inconclLinkFailed + 1 }
     | _ => return { s with inconclTimeout := s.inconclTimeout + 1 }
   | ["END"] =>
@@ -478,6 +489,7 @@ def main : IO Unit := do
   IO.println s!"STAT inconclusive_linkfailed={s.inconclLinkFailed}"
   IO.println s!"STAT inconclusive_setup={s.inconclSetup}"
   IO.println s!"STAT idle_but_dirty={s.dirty}"
+  IO.println s!"STAT inconclusive_stalled_commitment={s.stalled}"
   IO.println s!"STAT pairs_settled_at_quiescence={s.settledPairs}"
   IO.println s!"STAT pairs_failed_at_quiescence={s.failedPairs}"
   for (k, n) in s.kinds do IO.println s!"STAT case_{k}={n}"
